@@ -184,11 +184,16 @@ def body_run(scn):
     return dict(violations=v, labels=labs, nontrivial=nt, oracle_evals=evals, sample=dict(runlevel.small(scn), ncalls=len(tr.calls)))
 
 
+ADV_EXCLUDE = ()
+
+
 def plan(tier):
-    return [("histories", 16), ("runs", 16)] + ([("fuzz", 16)] if tier == "thorough" else [])
+    return [("histories", 16), ("runs", 16), ("advopts", 16)] + ([("fuzz", 16)] if tier == "thorough" else [])
 
 
 def run_part(res, part, tier, seed, shard, nshards):
+    if part == "advopts":
+        return runlevel.adv_sweep(res, PROFILE, tier, seed, shard, nshards, body_run, exclude=ADV_EXCLUDE)
     if part == "fuzz":
         # coverage-guided campaign (atheris/libFuzzer) on the same Hypothesis test, empty corpus, fixed -runs and -seed
         return engine.run_fuzz_part(res, "C12", "fuzz", 20000, seed, shard)
@@ -199,14 +204,14 @@ def run_part(res, part, tier, seed, shard, nshards):
 
 
 def minimise(part, tier, sig, case, seed):
-    if part == "runs":
+    if part in ("runs", "advopts"):
         return runlevel.field_minimise(case, sig, body_run, max_runs=12 if tier == "quick" else 40)
     m = engine.hyp_minimise(histories(), lambda c: any(engine.signature(x) == sig for x in run_history(c)[0]), 4000, seed)
     return {"case": m or case, "note": "hypothesis shrink of the whole history" if m else "unminimised"}
 
 
 def replay(part, case):
-    if part == "runs":
+    if part in ("runs", "advopts"):
         return runlevel.replay_body(body_run, case)
     return run_history(case)[0]
 
